@@ -71,6 +71,8 @@ func main() {
 		cmdSelftest(os.Args[2:])
 	case "replay":
 		cmdReplay(os.Args[2:])
+	case "list":
+		cmdList()
 	default:
 		fmt.Fprintln(os.Stderr, "unknown subcommand", os.Args[1])
 		os.Exit(2)
